@@ -65,6 +65,7 @@ def stepOp (vt : Variant) (il : ILN) (op : Json) : Except String (ILN × Json) :
     match vt, r with
     | .asIs, .error .attribute => pure (cacheIds il, Json.mkObj [("err", Json.str "attribute")])
     | _, _ => stepCopy il r
+  | "setordered" => pure (setOrdered il (← (← op.getObjVal? "flag").getBool?), Json.str "ok")
   | "dropfield" => pure (dropField il (← getStr op "name"), Json.str "ok")
   | "setfield" => stepCopy il (setField il (← getStr op "name") (← intList (← op.getObjVal? "vals")))
   | _ => throw s!"unknown op {kind}"
